@@ -438,6 +438,33 @@ def leg_bad_bytes(ns, res, spec):
         if err != 'io' or w.rows != exp:
             res.violation('py:bad-byte-big-file', '[py] bad byte at offset %d of a %d-byte file: error %r, %d records delivered (intact prefix: %s)' % (p, len(data), err, len(w.rows), w.rows == exp), {'leg': 'bad-bytes-big', 'offset': p})
         res.count('records_delivered_before_decode_error', len(w.rows))
+    # lines wider than the reader's 1 KiB reads and than the decoder's 8 KiB blocks (a record assembled from several reads): the invalid byte in the block that
+    # a LATER read of the same line reaches is an IO-handling error like any other, and the records before that line arrive intact
+    wrng = random.Random(spec['seed'] * 7 + 3)
+    for layout in range(6):
+        lines, size = [], 0
+        while size < 45000:
+            w_ = wrng.choice([30, 30, 900, 1500, 3000, 3000, 9000, 20000])
+            ln = 'w%d,%s' % (len(lines), 'x' * w_)
+            lines.append(ln)
+            size += len(ln) + 1
+        wide = ('\n'.join(lines) + '\n').encode('utf-8')
+        for p in sorted(set([7000 + 311 * k for k in range(0, 60, 3)] + [8192, 8193, 16383, 16384, 16385, 24576, 30000, 40000, wrng.randrange(len(wide)), wrng.randrange(len(wide))])):
+            if p > len(wide):
+                continue
+            data = wide[:p] + b'\xff' + wide[p:]
+            w = PW(boundary.Log())
+            err = None
+            try:
+                ns.rbql.query('select a1, len(a2)', ns.csv.CSVRecordIterator(io.BytesIO(data), 'utf-8', ',', 'quoted'), w, [])
+            except Exception as e:
+                err = util.error_class(e) if 'Rbql' in type(e).__name__ else 'raw:' + type(e).__name__
+            res.evaluations += 1
+            res.count('bad_byte_wide_line_runs')
+            exp = [[ln.split(',')[0], len(ln.split(',')[1])] for ln in lines[:len(w.rows)]]
+            if err != 'io' or w.rows != exp:
+                res.violation('py:bad-byte-in-file-of-wide-lines', '[py] invalid byte at offset %d of a %d-byte file with lines of %r... characters: error %r, %d records delivered (intact prefix: %s)' % (
+                    p, len(data), [len(x) for x in lines[:8]], err, len(w.rows), w.rows == exp), {'leg': 'bad-bytes-wide', 'offset': p, 'line_widths': [len(x) for x in lines]})
     # CR / CRLF files with a line break sitting exactly on a read-buffer boundary (1 KiB reader chunks, 8 KiB decoder chunks) and the invalid byte
     # somewhere in the buffer after it: the reader's look-ahead for the LF of a split CRLF pair is a read like any other
     import tempfile
@@ -792,7 +819,7 @@ def summarize(tier, seed, m):
     return {
         'rule': 'fault enumeration: for each of %d query shapes (streaming, WHERE, header, UPDATE, ORDER BY, TOP, GROUP BY, DISTINCT, DISTINCT COUNT, UNNEST, multi-match JOIN, LEFT JOIN star, None output) the output stream raises BrokenPipeError at every write index k in 1..writes+1 (text sink and raw byte sink behind the writer\'s TextIOWrapper; large outputs sampled), and a user writer returns False at every k; the same two fault enumerations over generated queries of every clause combination (C01-C05 generators, random tables); an invalid UTF-8 sequence at every offset x 7 sequences x 5 chunk sizes (Python reader) and x 6 deliveries x 2 policies through the JS bulk and stream readers, plus truncated sequences as the whole input or right after the last line break; CR / CRLF / LF files of up to 35 KiB whose line break ends exactly at, one before or one after a 1 / 2 / 8 / 16 / 24 KiB buffer boundary with the invalid byte 3, 700 or 5000 bytes later (stream and query_csv); the same invalid sequences with the table on standard input - in-process through a replaced sys.stdin whose own error handler is surrogateescape / replace / strict / ignore, and through the command line (stdin and --input) under LC_ALL=C, C.UTF-8, PYTHONUTF8=1, PYTHONIOENCODING=utf-8:replace / :strict, for queries that do and do not print the damaged cell; %d descriptor scenarios (success, parse / syntax / runtime / IO error, missing input, missing join table) x header flag with every file object opened by the CSV / sqlite front-ends tracked; the command line writing 30000 rows into a real OS pipe whose reader closes after N bytes (exit status 0, silent stderr, delivered bytes a prefix). distinct_nontrivial counts enumerated fault points.' % (len(SHAPES), len(DESCRIPTOR_SCENARIOS)),
         'exhaustive': True,
-        'required': ['js_bad_byte_runs:bulk', 'js_bad_byte_runs:stream', 'generated_false_runs', 'generated_pipe_runs', 'generated_faults_triggered', 'broken_pipe_runs', 'broken_pipe_runs_writer_closes_stream', 'descriptor_runs_output_fifo', 'broken_pipe:text', 'broken_pipe:bytes', 'faults_triggered', 'writer_protocol_runs', 'bad_byte_runs', 'bad_byte_big_runs', 'bad_byte_after_boundary_break_runs', 'stdin_bad_byte_runs', 'cli_bad_byte_runs:stdin', 'cli_bad_byte_runs:file', 'records_delivered_before_decode_error', 'descriptor_runs', 'files_tracked', 'descriptor_runs_sqlite', 'real_pipe_runs'],
+        'required': ['js_bad_byte_runs:bulk', 'js_bad_byte_runs:stream', 'generated_false_runs', 'generated_pipe_runs', 'generated_faults_triggered', 'broken_pipe_runs', 'broken_pipe_runs_writer_closes_stream', 'descriptor_runs_output_fifo', 'broken_pipe:text', 'broken_pipe:bytes', 'faults_triggered', 'writer_protocol_runs', 'bad_byte_runs', 'bad_byte_big_runs', 'bad_byte_wide_line_runs', 'bad_byte_after_boundary_break_runs', 'stdin_bad_byte_runs', 'cli_bad_byte_runs:stdin', 'cli_bad_byte_runs:file', 'records_delivered_before_decode_error', 'descriptor_runs', 'files_tracked', 'descriptor_runs_sqlite', 'real_pipe_runs'],
         'assumptions': ['"promptly": no further stream write and at most one further input read after the pipe broke', 'set_header has no return value, so a pipe that breaks while the header line is written can only be noticed at the first data write (one further write attempt tolerated in that phase only); a buffering query (aggregates, ORDER BY, DISTINCT COUNT) issues that write after it has consumed its input, so the read bound is applied to faults at data writes', 'finish being (not) called on failing runs is not demanded'],
     }
 
